@@ -4,21 +4,23 @@ scratch worktree, make sure it builds, and run every check whose property is anc
 Any VIOLATION is a false alarm of the checker (or a refactoring that is not behaviour-preserving - judge by reading)."""
 import sys,os,json,subprocess,re,glob
 tag=sys.argv[1]; pid=tag[:3]
+SCR=os.environ.get("SCRATCH","/tmp/scratch")
+VT=os.environ.get("VTEST","/tmp/vtest")
 sd=f"/tmp/seedwork/{tag}/SEED_OUT"
 props=[json.loads(l) for l in open('/verif/properties.jsonl')]
 env=dict(os.environ)
 def sh(cmd,cwd=None):
     return subprocess.run(cmd,shell=True,cwd=cwd,capture_output=True,text=True,env=env)
-sh("git checkout -q -- . && git clean -fdq && git checkout -q --detach $(git -C /repo rev-parse HEAD)","/tmp/scratch")
+sh("git checkout -q -- . && git clean -fdq && git checkout -q --detach $(git -C /repo rev-parse HEAD)",SCR)
 for pf in sorted(glob.glob(sd+"/r*.patch")):
     name=os.path.basename(pf)
     files=re.findall(r'^\+\+\+ b/(\S+)',open(pf).read(),re.M)
-    ap=sh(f"git apply {pf}","/tmp/scratch")
+    ap=sh(f"git apply {pf}",SCR)
     if ap.returncode!=0:
         print(f"{tag} {name}: does not apply ({ap.stderr.strip()[:100]})"); continue
-    b=sh(". /verif/bin/env.sh && go build ./... 2>&1 | tail -3","/tmp/scratch")
+    b=sh(". /verif/bin/env.sh && go build ./... 2>&1 | tail -3",SCR)
     if b.stdout.strip():
-        print(f"{tag} {name}: BUILD FAILS {b.stdout.strip()[:200]}"); sh("git checkout -q -- . && git clean -fdq","/tmp/scratch"); continue
+        print(f"{tag} {name}: BUILD FAILS {b.stdout.strip()[:200]}"); sh("git checkout -q -- . && git clean -fdq",SCR); continue
     todo={pid}
     for p in props:
         if any(f in p['anchors']['files'] for f in files): todo.add(p['id'])
@@ -28,7 +30,7 @@ for pf in sorted(glob.glob(sd+"/r*.patch")):
         if any(os.path.dirname(a) in dirs for a in p['anchors']['files']): todo.add(p['id'])
     res=[]
     for q in sorted(todo):
-        r=sh(f"/verif/.build/bngvet -prop {q} -repo /tmp/scratch -verif /tmp/vtest")
+        r=sh(f"/verif/.build/bngvet -prop {q} -repo {SCR} -verif {VT}")
         last=[l for l in r.stdout.splitlines() if ' quick: ' in l]
         keys=[l.strip()[4:].strip()[:150] for l in r.stdout.splitlines() if l.startswith("  key ")]
         fail=[l for l in r.stdout.splitlines() if l.startswith("ANALYSIS-FAILURE")]
@@ -38,4 +40,4 @@ for pf in sorted(glob.glob(sd+"/r*.patch")):
     for q,keys,fail in res:
         for k in keys: print(f"      {q}: {k}")
         for f in fail: print(f"      {q}: {f[:200]}")
-    sh("git checkout -q -- . && git clean -fdq","/tmp/scratch")
+    sh("git checkout -q -- . && git clean -fdq",SCR)
